@@ -10,7 +10,7 @@
                   variable (end of this file) with the hypothesis that it is a function of the
                   map's extensional content — that is property C17 (C17_root_canonical).
      adata        the fields of accountData that the exported, deploy-free API can change:
-                  balance, store (None = the Go nil store), isContract, contractOwner, state
+                  balance, store (None = the Go nil store), isContract, contractOwner, state, deposits
      asnap        an accountSnapshotImpl: its data and a STAMP = its identity as a Go pointer
                   (index into the allocation log `heap`); the code compares snapshot pointers
                   in three places (accountStateImpl.GetSnapshot/Reset: s.last;
@@ -63,15 +63,171 @@ Arguments amap : clear implicits.
 Definition aid := bytes.                 (* address id *)
 Definition smap := amap bytes.           (* storage: key -> non-empty value *)
 
+(* ---------- fee-sharing deposits (service/state/deposit.go, depositlist.go) ---------- *)
+(* depositV1 {ID, DepositAmount, DepositRemain, ExpireHeight, StepIssued, StepRemain} and
+   depositV2 {DepositRemain}.  depositV1.isExhausted (not serialized; recomputed on decode as
+   DepositRemain <= DepositAmount/10) is modelled as that derived value — equal to the stored
+   flag whenever deposit amounts are positive. *)
+Inductive deposit :=
+| DV1 (id : bytes) (amount remain expire issued sremain : Z)
+| DV2 (remain : Z).
+
+(* DepositContext / PayContext *)
+Record dctx := mkDC { c_price : Z; c_height : Z; c_term : Z; c_rate : Z; c_tid : bytes; c_on : bool }.
+
+Definition dep_is_id (d : deposit) (id : bytes) : bool :=
+  match d with DV1 i _ _ _ _ _ => bytes_eqb i id | DV2 _ => match id with [] => true | _ => false end end.
+
+Definition min_deposit (amount : Z) : Z := (amount / 10)%Z.
+Definition calc_vsteps (amount rate price : Z) : Z :=
+  if (price <=? 0)%Z then 0%Z else (amount * rate / 100 / price)%Z.
+Definition expired (d : deposit) (h : Z) : bool :=
+  match d with DV1 _ _ _ e _ _ => (e <=? h)%Z | DV2 _ => false end.
+Definition exhausted (d : deposit) : bool :=
+  match d with DV1 _ a r _ _ _ => (r <=? min_deposit a)%Z | DV2 _ => false end.
+
+(* depositList.AddDeposit: add in place to the deposit identified by the id, else append; None = error *)
+Fixpoint dl_add_in (id : bytes) (v : Z) (dl : list deposit) : option (option (list deposit)) :=
+  match dl with                                   (* None: not found; Some None: found, error *)
+  | [] => None
+  | d :: r =>
+      if dep_is_id d id then
+        match d with
+        | DV1 _ _ _ _ _ _ => Some None                                  (* DuplicateDeposit *)
+        | DV2 rem => Some (Some (DV2 (rem + v)%Z :: r))
+        end
+      else match dl_add_in id v r with
+           | None => None
+           | Some None => Some None
+           | Some (Some r') => Some (Some (d :: r'))
+           end
+  end.
+
+Definition dl_add (c : dctx) (v : Z) (dl : list deposit) : option (list deposit) :=
+  let tid := if (c_term c =? 0)%Z then [] else c_tid c in
+  match dl_add_in tid v dl with
+  | Some r => r
+  | None =>
+      let issue := calc_vsteps v (c_rate c) (c_price c) in
+      Some (dl ++ [if (c_term c =? 0)%Z then DV2 v
+                   else DV1 (c_tid c) v v (c_height c + c_term c)%Z issue issue])
+  end.
+
+Definition is_noneZ (v : option Z) : bool := match v with None => true | Some _ => false end.
+
+(* deposit.Withdraw: (amount, penalty, removal, deposit afterwards); None = error *)
+Definition dep_withdraw (d : deposit) (h price : Z) (v : option Z) : option (Z * Z * bool * deposit) :=
+  match d with
+  | DV1 i a r e iss sr =>
+      match v with
+      | Some _ => None                                                  (* PartialWithdrawIsDenied *)
+      | None =>
+          if expired d h then Some (r, 0%Z, true, d)
+          else let pen := ((iss - sr) * price)%Z in
+               if (pen <=? r)%Z then Some ((r - pen)%Z, pen, true, d) else Some (0%Z, r, true, d)
+      end
+  | DV2 r =>
+      let amount := match v with Some x => x | None => r end in
+      if (amount <? r)%Z then Some (amount, 0%Z, false, DV2 (r - amount)%Z)
+      else if (amount =? r)%Z
+           then Some (amount, 0%Z, is_noneZ v, match v with Some _ => DV2 0%Z | None => d end)
+           else None                                                    (* NotEnoughBalance *)
+  end.
+
+(* depositList.WithdrawDeposit: first deposit identified by id; removed from the list on removal *)
+Fixpoint dl_withdraw_in (h price : Z) (id : bytes) (v : option Z) (dl : list deposit)
+  : option (option (Z * Z * list deposit)) :=     (* None: not found; Some None: error *)
+  match dl with
+  | [] => None
+  | d :: r =>
+      if dep_is_id d id then
+        match dep_withdraw d h price v with
+        | None => Some None
+        | Some (amount, pen, removal, d') => Some (Some (amount, pen, if removal then r else d' :: r))
+        end
+      else match dl_withdraw_in h price id v r with
+           | None => None
+           | Some None => Some None
+           | Some (Some (a, p, r')) => Some (Some (a, p, d :: r'))
+           end
+  end.
+
+Definition dl_withdraw (c : dctx) (id : bytes) (v : option Z) (dl : list deposit) : option (Z * Z * list deposit) :=
+  match v with
+  | Some x => if (x <? 0)%Z then None else
+      match dl_withdraw_in (c_height c) (c_price c) id v dl with Some r => r | None => None end
+  | None => match dl_withdraw_in (c_height c) (c_price c) id v dl with Some r => r | None => None end
+  end.
+
+(* ConsumeSteps / ConsumeDepositLv1 / ConsumeDepositLv2: (deposit afterwards, what remains to pay) *)
+Definition dep_consume_steps (h : Z) (d : deposit) (steps : Z) : deposit * Z :=
+  match d with
+  | DV1 i a r e iss sr =>
+      if expired d h then (d, steps)
+      else if (sr =? 0)%Z then (d, steps)
+      else if (sr <? steps)%Z then (DV1 i a r e iss 0%Z, (steps - sr)%Z)
+      else (DV1 i a r e iss (sr - steps)%Z, 0%Z)
+  | DV2 _ => (d, steps)
+  end.
+
+Definition dep_lv1 (h : Z) (d : deposit) (fee : Z) : deposit * Z :=
+  match d with
+  | DV1 i a r e iss sr =>
+      if expired d h || exhausted d then (d, fee)
+      else let payable := (r - min_deposit a)%Z in
+           if (payable <=? fee)%Z then (DV1 i a (r - payable)%Z e iss sr, (fee - payable)%Z)
+           else (DV1 i a (r - fee)%Z e iss sr, 0%Z)
+  | DV2 r => if (r <=? fee)%Z then (DV2 0%Z, (fee - r)%Z) else (DV2 (r - fee)%Z, 0%Z)
+  end.
+
+Definition dep_lv2 (h : Z) (d : deposit) (fee : Z) : deposit * Z :=
+  match d with
+  | DV1 i a r e iss sr =>
+      if expired d h then (d, fee)
+      else if (r <? fee)%Z then (DV1 i a 0%Z e iss sr, (fee - r)%Z)
+      else (DV1 i a (r - fee)%Z e iss sr, 0%Z)
+  | DV2 _ => (d, fee)
+  end.
+
+(* a loop over the list that stops as soon as nothing remains *)
+Fixpoint dl_sweep (f : deposit -> Z -> deposit * Z) (dl : list deposit) (x : Z) : list deposit * Z :=
+  match dl with
+  | [] => ([], x)
+  | d :: r =>
+      let '(d', x') := f d x in
+      if (x' =? 0)%Z then (d' :: r, 0%Z)
+      else let '(r', x'') := dl_sweep f r x' in (d' :: r', x'')
+  end.
+
+Definition dep_available (h : Z) (d : deposit) : Z :=
+  match d with DV1 _ _ r _ _ _ => if expired d h then 0%Z else r | DV2 r => r end.
+
+(* depositList.PaySteps: (list afterwards, paid steps, steps paid by deposit); None results = nil *)
+Definition dl_pay (c : dctx) (steps : Z) (dl : list deposit) : list deposit * option Z * option Z :=
+  if (c_price c <=? 0)%Z || match dl with [] => true | _ => false end then (dl, None, None)
+  else
+    let '(dl1, remains) := dl_sweep (dep_consume_steps (c_height c)) dl steps in
+    if (remains =? 0)%Z then (dl1, Some steps, None)
+    else
+      let avail := fold_left (fun acc d => (acc + dep_available (c_height c) d)%Z) dl1 0%Z in
+      let payable := (avail / c_price c)%Z in
+      let by_dep := if (payable <? remains)%Z then payable else remains in
+      let paid := if (payable <? remains)%Z then (steps - remains + payable)%Z else steps in
+      let fee := (by_dep * c_price c)%Z in
+      let '(dl2, fee2) := dl_sweep (dep_lv1 (c_height c)) dl1 fee in
+      let dl3 := if (fee2 =? 0)%Z then dl2 else fst (dl_sweep (dep_lv2 (c_height c)) dl2 fee2) in
+      (dl3, Some paid, Some by_dep).
+
 (* ---------- accountData ---------- *)
 Record adata := mkA {
   d_bal : Z;                  (* balance *)
   d_store : option smap;      (* store; None = nil *)
   d_isc : bool;               (* isContract *)
   d_own : option bytes;       (* contractOwner; None = nil *)
-  d_flg : N }.                (* state: ASDisabled = 1, ASBlocked = 2 *)
+  d_flg : N;                  (* state: ASDisabled = 1, ASBlocked = 2 *)
+  d_dep : list deposit }.     (* deposits *)
 
-Definition empty_data : adata := mkA 0%Z None false None 0.    (* newAccountSnapshot / Clear() *)
+Definition empty_data : adata := mkA 0%Z None false None 0 [].    (* newAccountSnapshot / Clear() *)
 
 Definition is_none {A} (o : option A) : bool := match o with None => true | Some _ => false end.
 
@@ -96,9 +252,10 @@ Record astate := mkAS { live : adata; last : option asnap }.
 (* markDirty *)
 Definition dirty (d : adata) : astate := mkAS d None.
 
-Definition with_bal (d : adata) (v : Z) := mkA v (d_store d) (d_isc d) (d_own d) (d_flg d).
-Definition with_store (d : adata) (s : option smap) := mkA (d_bal d) s (d_isc d) (d_own d) (d_flg d).
-Definition with_flg (d : adata) (f : N) := mkA (d_bal d) (d_store d) (d_isc d) (d_own d) f.
+Definition with_bal (d : adata) (v : Z) := mkA v (d_store d) (d_isc d) (d_own d) (d_flg d) (d_dep d).
+Definition with_store (d : adata) (s : option smap) := mkA (d_bal d) s (d_isc d) (d_own d) (d_flg d) (d_dep d).
+Definition with_flg (d : adata) (f : N) := mkA (d_bal d) (d_store d) (d_isc d) (d_own d) f (d_dep d).
+Definition with_dep (d : adata) (dl : list deposit) := mkA (d_bal d) (d_store d) (d_isc d) (d_own d) (d_flg d) dl.
 
 (* accountStateImpl.SetBalance *)
 Definition a_set_balance (s : astate) (v : Z) : astate :=
@@ -129,7 +286,7 @@ Definition a_set_value (s : astate) (k v : bytes) : astate * option bytes :=
 (* accountStateImpl.InitContractAccount *)
 Definition a_init_contract (s : astate) (owner : bytes) : astate * bool :=
   if d_isc (live s) then (s, false)
-  else (dirty (mkA (d_bal (live s)) (d_store (live s)) true (Some owner) (d_flg (live s))), true).
+  else (dirty (mkA (d_bal (live s)) (d_store (live s)) true (Some owner) (d_flg (live s)) (d_dep (live s))), true).
 
 (* accountStateImpl.SetBlock *)
 Definition a_set_block (s : astate) (b : bool) : astate :=
@@ -142,6 +299,37 @@ Definition a_set_disable (s : astate) (b : bool) : astate :=
     if Bool.eqb (flag_on (d_flg (live s)) AS_DISABLED) b then s
     else dirty (with_flg (live s) (N.lxor (d_flg (live s)) AS_DISABLED))
   else s.
+
+
+(* results of the deposit operations: None = an error was returned *)
+Definition dres := option (option Z * option Z).
+
+(* accountStateImpl.AddDeposit / WithdrawDeposit / PaySteps.  The code has no isContract check
+   here (the service layer only calls them for contract accounts); the model refuses them on
+   other accounts — the bool says whether the operation was admitted *)
+Definition a_add_deposit (s : astate) (c : dctx) (v : Z) : astate * (bool * dres) :=
+  if d_isc (live s) then
+    match dl_add c v (d_dep (live s)) with
+    | Some dl => (dirty (with_dep (live s) dl), (true, Some (None, None)))
+    | None => (s, (true, None))
+    end
+  else (s, (false, None)).
+
+Definition a_withdraw_deposit (s : astate) (c : dctx) (id : bytes) (v : option Z) : astate * (bool * dres) :=
+  if d_isc (live s) then
+    match dl_withdraw c id v (d_dep (live s)) with
+    | Some (amount, pen, dl) => (dirty (with_dep (live s) dl), (true, Some (Some amount, Some pen)))
+    | None => (s, (true, None))
+    end
+  else (s, (false, None)).
+
+Definition a_pay_steps (s : astate) (c : dctx) (steps : Z) : astate * (bool * dres) :=
+  if d_isc (live s) then
+    if c_on c && match d_dep (live s) with [] => false | _ => true end then
+      let '(dl, paid, by_dep) := dl_pay c steps (d_dep (live s)) in
+      (dirty (with_dep (live s) dl), (true, Some (paid, by_dep)))
+    else (s, (true, Some (None, None)))
+  else (s, (false, None)).
 
 (* the data of a fresh snapshot: `if store.Empty() { store = nil }` *)
 Definition norm_store (o : option smap) : option smap :=
@@ -280,7 +468,7 @@ Inductive target :=
 | TSnap (i : nat) (a : aid)   (* snapshot i .GetAccountSnapshot(a) — may be nil *)
 | TRO (i : nat) (a : aid).    (* NewReadOnlyWorldState(snapshot i).GetAccountState(a) *)
 
-Inductive query := QBalance | QValue (k : bytes) | QInfo.
+Inductive query := QBalance | QValue (k : bytes) | QInfo | QDeposits.
 
 Inductive op :=
 | OTouch (a : aid)
@@ -290,6 +478,9 @@ Inductive op :=
 | OInitContract (a : aid) (owner : bytes)
 | OSetBlock (a : aid) (b : bool)
 | OSetDisable (a : aid) (b : bool)
+| OAddDeposit (a : aid) (c : dctx) (v : Z)
+| OWithdrawDeposit (a : aid) (c : dctx) (id : bytes) (v : option Z)
+| OPaySteps (a : aid) (c : dctx) (steps : Z)
 | ORead (t : target) (q : query)
 | OGetSnapshot                (* ws.GetSnapshot(), appended to the snapshot list *)
 | OReset (i : nat)            (* ws.Reset(snapshot i) *)
@@ -306,14 +497,19 @@ Inductive out :=
 | RBal (v : Z)
 | RVal (v : option bytes)     (* None = nil *)
 | RInfo (isc : bool) (own : option bytes) (flg : N)
-| RBool (b : bool).
+| RBool (b : bool)
+| RDeps (dl : list deposit)
+| RDep (r : dres).          (* deposit operation: None = error; otherwise the two returned numbers (None = nil) *)
 
 Definition read_data (d : adata) (q : query) : out :=
   match q with
   | QBalance => RBal (d_bal d)
   | QValue k => RVal (data_value d k)
   | QInfo => RInfo (d_isc d) (d_own d) (d_flg d)
+  | QDeposits => RDeps (d_dep d)
   end.
+
+Definition dep_out (r : bool * dres) : out := if fst r then RDep (snd r) else RIllegal.
 
 Definition is_flushed (s : sys) (i : nat) : bool := existsb (Nat.eqb i) (s_flushed s).
 
@@ -332,6 +528,9 @@ Definition step (s : sys) (o : op) : sys * out :=
   | OInitContract a owner => modify a (fun st => a_init_contract st owner) RBool
   | OSetBlock a b => modify a (fun st => (a_set_block st b, tt)) (fun _ => RUnit)
   | OSetDisable a b => modify a (fun st => (a_set_disable st b, tt)) (fun _ => RUnit)
+  | OAddDeposit a c v => modify a (fun st => a_add_deposit st c v) dep_out
+  | OWithdrawDeposit a c id v => modify a (fun st => a_withdraw_deposit st c id v) dep_out
+  | OPaySteps a c steps => modify a (fun st => a_pay_steps st c steps) dep_out
   | ORead (TLive a) q =>
       let '(w', st) := w_touch (s_ws s) a in (set_ws s w', read_data (live st) q)
   | ORead (TPeek a) q =>
@@ -396,8 +595,10 @@ Definition outs_of (s : sys) (l : list op) : list out := snd (run s l).
 Definition current_snapshot (s : sys) : trie := snd (w_get_snapshot (s_heap s) (s_ws s)).
 
 (* ---------- specification: a total map of logical accounts ---------- *)
-Record lacct := mkL { l_bal : Z; l_store : smap; l_isc : bool; l_own : option bytes; l_flg : N }.
-Definition l_empty : lacct := mkL 0%Z [] false None 0.
+Record lacct := mkL { l_bal : Z; l_store : smap; l_isc : bool; l_own : option bytes; l_flg : N; l_dep : list deposit }.
+Definition l_empty : lacct := mkL 0%Z [] false None 0 [].
+Definition l_with_dep (l : lacct) (dl : list deposit) : lacct :=
+  mkL (l_bal l) (l_store l) (l_isc l) (l_own l) (l_flg l) dl.
 
 Definition l_is_empty (l : lacct) : bool :=
   (l_bal l =? 0)%Z && am_is_empty (l_store l) && negb (l_isc l) && (l_flg l =? 0).
@@ -415,6 +616,7 @@ Definition read_l (l : lacct) (q : query) : out :=
   | QBalance => RBal (l_bal l)
   | QValue k => RVal (am_get (l_store l) k)
   | QInfo => RInfo (l_isc l) (l_own l) (l_flg l)
+  | QDeposits => RDeps (l_dep l)
   end.
 
 Definition sp_is_flushed (s : spec) (i : nat) : bool := existsb (Nat.eqb i) (sp_flushed s).
@@ -425,26 +627,47 @@ Definition spec_step (s : spec) (o : op) : spec * out :=
   match o with
   | OTouch a => (s, RUnit)
   | OSetBalance a v =>
-      (put a (mkL v (l_store (cur a)) (l_isc (cur a)) (l_own (cur a)) (l_flg (cur a))), RUnit)
+      (put a (mkL v (l_store (cur a)) (l_isc (cur a)) (l_own (cur a)) (l_flg (cur a)) (l_dep (cur a))), RUnit)
   | OSetValue a k v =>
       (put a (mkL (l_bal (cur a))
                   (match v with [] => am_del k (l_store (cur a)) | _ => am_set k v (l_store (cur a)) end)
-                  (l_isc (cur a)) (l_own (cur a)) (l_flg (cur a))),
+                  (l_isc (cur a)) (l_own (cur a)) (l_flg (cur a)) (l_dep (cur a))),
        RVal (am_get (l_store (cur a)) k))
   | ODelValue a k =>
-      (put a (mkL (l_bal (cur a)) (am_del k (l_store (cur a))) (l_isc (cur a)) (l_own (cur a)) (l_flg (cur a))),
+      (put a (mkL (l_bal (cur a)) (am_del k (l_store (cur a))) (l_isc (cur a)) (l_own (cur a)) (l_flg (cur a)) (l_dep (cur a))),
        RVal (am_get (l_store (cur a)) k))
   | OInitContract a owner =>
       if l_isc (cur a) then (s, RBool false)
-      else (put a (mkL (l_bal (cur a)) (l_store (cur a)) true (Some owner) (l_flg (cur a))), RBool true)
+      else (put a (mkL (l_bal (cur a)) (l_store (cur a)) true (Some owner) (l_flg (cur a)) (l_dep (cur a))), RBool true)
   | OSetBlock a b =>
       (put a (mkL (l_bal (cur a)) (l_store (cur a)) (l_isc (cur a)) (l_own (cur a))
                   (if Bool.eqb (flag_on (l_flg (cur a)) AS_BLOCKED) b then l_flg (cur a)
-                   else N.lxor (l_flg (cur a)) AS_BLOCKED)), RUnit)
+                   else N.lxor (l_flg (cur a)) AS_BLOCKED) (l_dep (cur a))), RUnit)
   | OSetDisable a b =>
       (put a (mkL (l_bal (cur a)) (l_store (cur a)) (l_isc (cur a)) (l_own (cur a))
                   (if l_isc (cur a) && negb (Bool.eqb (flag_on (l_flg (cur a)) AS_DISABLED) b)
-                   then N.lxor (l_flg (cur a)) AS_DISABLED else l_flg (cur a))), RUnit)
+                   then N.lxor (l_flg (cur a)) AS_DISABLED else l_flg (cur a)) (l_dep (cur a))), RUnit)
+  | OAddDeposit a c v =>
+      if l_isc (cur a) then
+        match dl_add c v (l_dep (cur a)) with
+        | Some dl => (put a (l_with_dep (cur a) dl), RDep (Some (None, None)))
+        | None => (s, RDep None)
+        end
+      else (s, RIllegal)
+  | OWithdrawDeposit a c id v =>
+      if l_isc (cur a) then
+        match dl_withdraw c id v (l_dep (cur a)) with
+        | Some (amount, pen, dl) => (put a (l_with_dep (cur a) dl), RDep (Some (Some amount, Some pen)))
+        | None => (s, RDep None)
+        end
+      else (s, RIllegal)
+  | OPaySteps a c steps =>
+      if l_isc (cur a) then
+        if c_on c && match l_dep (cur a) with [] => false | _ => true end then
+          let '(dl, paid, by_dep) := dl_pay c steps (l_dep (cur a)) in
+          (put a (l_with_dep (cur a) dl), RDep (Some (paid, by_dep)))
+        else (s, RDep (Some (None, None)))
+      else (s, RIllegal)
   | ORead (TLive a) q | ORead (TPeek a) q => (s, read_l (cur a) q)
   | ORead (TSnap i a) q =>
       match nth_error (sp_snaps s) i with
@@ -496,7 +719,7 @@ Fixpoint spec_run (s : spec) (l : list op) : spec * list out :=
 
 (* ---------- abstraction and logical equality ---------- *)
 Definition abs (d : adata) : lacct :=
-  mkL (d_bal d) (match d_store d with Some m => m | None => [] end) (d_isc d) (d_own d) (d_flg d).
+  mkL (d_bal d) (match d_store d with Some m => m | None => [] end) (d_isc d) (d_own d) (d_flg d) (d_dep d).
 
 Definition abs_opt (o : option asnap) : lacct :=
   match o with Some x => abs (sdata x) | None => l_empty end.
@@ -504,6 +727,7 @@ Definition abs_opt (o : option asnap) : lacct :=
 (* two logical accounts are the same: equal scalars, and the stores agree on every key *)
 Definition l_equiv (x y : lacct) : Prop :=
   l_bal x = l_bal y /\ l_isc x = l_isc y /\ l_own x = l_own y /\ l_flg x = l_flg y /\
+  l_dep x = l_dep y /\
   forall k, am_get (l_store x) k = am_get (l_store y) k.
 
 (* two world snapshots hold the same logical contents (an absent account is an empty one) *)
@@ -521,9 +745,24 @@ Definition opt_eqb {A} (eqb : A -> A -> bool) (x y : option A) : bool :=
 Definition store_equivb (m1 m2 : smap) : bool :=
   forallb (fun k => opt_bytes_eqb (am_get m1 k) (am_get m2 k)) (map fst m1 ++ map fst m2).
 
+Definition deposit_eqb (x y : deposit) : bool :=
+  match x, y with
+  | DV1 i a r e s t, DV1 i' a' r' e' s' t' =>
+      bytes_eqb i i' && (a =? a')%Z && (r =? r')%Z && (e =? e')%Z && (s =? s')%Z && (t =? t')%Z
+  | DV2 r, DV2 r' => (r =? r')%Z
+  | _, _ => false
+  end.
+
+Fixpoint deposits_eqb (x y : list deposit) : bool :=
+  match x, y with
+  | [], [] => true
+  | a :: x', b :: y' => deposit_eqb a b && deposits_eqb x' y'
+  | _, _ => false
+  end.
+
 Definition l_equivb (x y : lacct) : bool :=
   (l_bal x =? l_bal y)%Z && Bool.eqb (l_isc x) (l_isc y) && opt_bytes_eqb (l_own x) (l_own y) &&
-  (l_flg x =? l_flg y) && store_equivb (l_store x) (l_store y).
+  (l_flg x =? l_flg y) && deposits_eqb (l_dep x) (l_dep y) && store_equivb (l_store x) (l_store y).
 
 Definition trie_equivb (t1 t2 : trie) : bool :=
   forallb (fun a => l_equivb (abs_opt (am_get t1 a)) (abs_opt (am_get t2 a))) (map fst t1 ++ map fst t2).
@@ -535,12 +774,12 @@ Section Hash.
   (* root of a storage trie, as a function of the association list that represents its content *)
   Variable store_root : smap -> hash.
   (* accountSnapshotImpl.RLPEncodeSelf: a function of the fields; the store enters by its root *)
-  Variable acct_leaf : Z -> bool -> option bytes -> N -> option hash -> leaf.
+  Variable acct_leaf : Z -> bool -> option bytes -> N -> list deposit -> option hash -> leaf.
   (* root of the account trie *)
   Variable world_root : amap leaf -> hash.
 
   Definition leaf_of (d : adata) : leaf :=
-    acct_leaf (d_bal d) (d_isc d) (d_own d) (d_flg d) (option_map store_root (d_store d)).
+    acct_leaf (d_bal d) (d_isc d) (d_own d) (d_flg d) (d_dep d) (option_map store_root (d_store d)).
 
   (* worldSnapshotImpl.StateHash *)
   Definition state_hash (t : trie) : hash :=
